@@ -13,7 +13,9 @@ expression operands / $group keys and accumulator arguments / $facet sub-pipelin
 $unwind of a written array / $out); `COMPARE_POSITIONS` compares a stored field with a written
 datetime ($eq .. $lte in both operand orders, $match+$expr, $match on a written field, $in,
 $subtract, $max / $min, $filter, $setUnion, $bucket boundaries, $lookup and
-$graphLookup on a written value); `COMPUTED_POSITIONS` lets an expression compute a datetime.
+$graphLookup on a written value); `COMPUTED_POSITIONS` (follows e05c961 / 8825a6b) lets the
+pipeline compute datetimes ($dateFromParts with millisecond carry, $add / $subtract of a date) and
+compares them with stored and written ones, groups by them, joins on them, stores them.
 """
 import collections
 import datetime as _dt
@@ -534,25 +536,111 @@ COMPARE_POSITIONS = [
 ]
 
 
-# A computed position: an expression builds a datetime; build(parts) -> (pipeline, observe);
-# parts = (year, month, day, hour, minute, second, millisecond); the rule: the datetime of that
-# instant in the read form of the client.
+# A computed position: the pipeline computes a datetime.  build(case) -> (pipeline, observe, expect)
+# where case gives  parts  = the `$dateFromParts` argument document (millisecond possibly outside
+#                            0..999: it carries over),
+#                   t      = the naive datetime those parts denote,
+#                   n      = a whole number of milliseconds (for `$add` / `$subtract`),
+#                   date   = the stored datetime of document 1, X = a written datetime;
+# observe(result) -> the observation, expect(tz) -> what the rule demands for it: a computed
+# datetime is a datetime like any other — it compares with stored and written ones by its instant,
+# and reaches the caller naive, or aware UTC under tz_aware=True, at every depth.
 
-def _kp_date_from_parts(parts):
-    names = ('year', 'month', 'day', 'hour', 'minute', 'second', 'millisecond')
+def _one(res, f):
+    return f(res[0]) if len(res) == 1 else res
+
+
+def _kp_date_from_parts(c):
+    return ([{'$match': {'_id': 1}}, {'$project': {'x': {'$dateFromParts': c['parts']},
+                                                   'deep': {'a': [{'$dateFromParts': c['parts']}]}}}],
+            lambda res: _one(res, lambda d: [d.get('x'), d.get('deep')]),
+            lambda tz: [spec_read(c['t'], tz), {'a': [spec_read(c['t'], tz)]}])
+
+
+def _kp_date_from_parts_field(c):
+    dfp = {'$dateFromParts': c['parts']}
+    a, b = ms_of(c['date']), ms_of(c['t'])
     return ([{'$match': {'_id': 1}},
-             {'$project': {'x': {'$dateFromParts': dict(zip(names, parts))}}}],
-            lambda res: res[0].get('x') if len(res) == 1 else res)
+             {'$project': dict([(op[1:], {op: ['$f', dfp]}) for op in CMP_OPS]
+                               + [('r' + op[1:], {op: [dfp, '$f']}) for op in CMP_OPS])}],
+            lambda res: _one(res, lambda d: [d.get(op[1:]) for op in CMP_OPS]
+                             + [d.get('r' + op[1:]) for op in CMP_OPS]),
+            lambda tz: [cmp_ms(op, a, b) for op in CMP_OPS] + [cmp_ms(op, b, a) for op in CMP_OPS])
 
 
-def _kp_date_from_parts_cmp(parts):
-    names = ('year', 'month', 'day', 'hour', 'minute', 'second', 'millisecond')
+def _kp_date_from_parts_literal(c):
+    dfp = {'$dateFromParts': c['parts']}
+    a, b = ms_of(c['X']), ms_of(c['t'])
     return ([{'$match': {'_id': 1}},
-             {'$project': {'x': {'$lt': [{'$dateFromParts': dict(zip(names, parts))}, '$f']}}}],
-            lambda res: res[0].get('x') if len(res) == 1 else res)
+             {'$project': dict((op[1:], {op: [c['X'], dfp]}) for op in CMP_OPS)}],
+            lambda res: _one(res, lambda d: [d.get(op[1:]) for op in CMP_OPS]),
+            lambda tz: [cmp_ms(op, a, b) for op in CMP_OPS])
+
+
+def _kp_add(c):
+    n = c['n']
+    a, x = ms_of(c['date']), ms_of(c['X'])
+    return ([{'$match': {'_id': 1}},
+             {'$project': {'p': {'$add': ['$f', n]}, 'q': {'$add': [n, c['X']]},
+                           's': {'$subtract': ['$f', n]},
+                           'lt': {'$lt': ['$f', {'$add': ['$f', 1]}]},
+                           'eq': {'$eq': [{'$add': [c['X'], a - x]}, '$f']},
+                           'mx': {'$max': ['$f', {'$add': ['$f', 1]}]}}}],
+            lambda res: _one(res, lambda d: [d.get(k) for k in ('p', 'q', 's', 'lt', 'eq', 'mx')]),
+            lambda tz: [spec_read(from_ms(a + n), tz), spec_read(from_ms(x + n), tz),
+                        spec_read(from_ms(a - n), tz), True, True, spec_read(from_ms(a + 1), tz)])
+
+
+def _kp_group_id(c):
+    dfp = {'$dateFromParts': c['parts']}
+    return ([{'$group': {'_id': {'d': dfp}, 'p': {'$push': {'c': dfp, 'f': '$f'}},
+                         'm': {'$max': dfp}, 'n': {'$sum': 1}}}],
+            lambda res: _one(res, lambda d: [d.get('_id'), d.get('p'), d.get('m'), d.get('n')]),
+            lambda tz: [{'d': spec_read(c['t'], tz)},
+                        [{'c': spec_read(c['t'], tz), 'f': spec_read(c['date'], tz)},
+                         {'c': spec_read(c['t'], tz), 'f': spec_read(c['far'], tz)}],
+                        spec_read(c['t'], tz), 2])
+
+
+def _kp_facet(c):
+    dfp = {'$dateFromParts': c['parts']}
+    return ([{'$facet': {'x': [{'$match': {'_id': 1}}, {'$project': {'c': dfp}}],
+                         'y': [{'$group': {'_id': dfp}}]}}],
+            lambda res: _one(res, lambda d: [d.get('x'), d.get('y')]),
+            lambda tz: [[{'_id': 1, 'c': spec_read(c['t'], tz)}], [{'_id': spec_read(c['t'], tz)}]])
+
+
+def _kp_lookup(c):
+    # the stored datetime, rebuilt from its parts, joins the foreign document that stores it
+    d = spec_patch(c['date'])
+    parts = {'year': d.year, 'month': d.month, 'day': d.day, 'hour': d.hour, 'minute': d.minute,
+             'second': d.second, 'millisecond': d.microsecond // 1000}
+    return ([{'$match': {'_id': 1}}, {'$addFields': {'l': {'$dateFromParts': parts}}},
+             {'$lookup': {'from': 'o', 'localField': 'l', 'foreignField': 'f', 'as': 'j'}},
+             {'$graphLookup': {'from': 'o', 'startWith': '$l', 'connectFromField': 'nokey',
+                               'connectToField': 'f', 'as': 'g'}},
+             {'$project': {'l': 1, 'j': 1, 'g': 1}}],
+            lambda res: _one(res, lambda x: [x.get('l'), x.get('j'), x.get('g')]),
+            lambda tz: [spec_read(d, tz), [{'_id': 5, 'f': spec_read(d, tz)}],
+                        [{'_id': 5, 'f': spec_read(d, tz)}]])
+
+
+def _kp_out(c):
+    # `$out` stores a computed datetime like an inserted one (observed in the raw store)
+    return ([{'$match': {'_id': 1}}, {'$project': {'c': {'$dateFromParts': c['parts']}}},
+             {'$out': 'outc'}],
+            None,
+            lambda tz: [{'_id': 1, 'c': c['t']}])
 
 COMPUTED_POSITIONS = [
-    ('$dateFromParts', _kp_date_from_parts), ('$dateFromParts compared', _kp_date_from_parts_cmp),
+    ('$dateFromParts', _kp_date_from_parts),
+    ('field op $dateFromParts', _kp_date_from_parts_field),
+    ('literal op $dateFromParts', _kp_date_from_parts_literal),
+    ('$add $subtract of a date', _kp_add),
+    ('$group by a computed datetime', _kp_group_id),
+    ('$facet with computed datetimes', _kp_facet),
+    ('$lookup / $graphLookup on a computed datetime', _kp_lookup),
+    ('$out of a computed datetime', _kp_out),
 ]
 
 
